@@ -81,6 +81,16 @@ CHECKS["C34"] = ("exploration", "linearizability monitor: client-boundary call/r
     "2-8 real clients x 30-60 operations over 1-3 shared nodes (node and map namespaces) of the real server, unique written values, one monotonic clock; each history is checked by porcupine (partitioned per node); failed writes stay open to the end of the history; a checker timeout is inconclusive.",
     "client and server share a process and clock; histories are short (<= 480 operations) so the checker terminates", "3/C34")
 
+CHECKS["C05"] = ("exploration", "framing monitor: generated frame streams written by a raw socket under six segmentation patterns to a real uacp.Conn over loopback TCP; sequence-equality oracle, malformed-header and end-of-stream oracle, heartbeat-clock termination oracle",
+    "Streams of well-formed frames (all size classes up to the receive buffer, known/unknown types, ERR frames) optionally followed by a malformed header are cut byte-at-a-time, inside every header, exactly after headers, per frame, randomly or not at all; the real Receive must deliver exactly the frames sent, surface ERR frames as *uacp.Error, fail on the malformed header without delivering anything after it, never panic and return after the writer closed.",
+    "equal send/receive buffer sizes (directions are C06's subject); hang verdict needs 8000 heartbeats of this process after the writer closed", "3/C05")
+CHECKS["C12"] = ("exploration", "reference-sender monitor: conforming chunk streams (uneven splits, interleaved request ids, aborts, sequence numbers across the wrap incl. 0) from the independent peer to bare gopcua channels; exactly-once byte-equal delivery oracle",
+    "The independent peer acts as a conforming sender towards a bare server-kind and a bare client-kind gopcua channel in None, Sign and SignAndEncrypt: every complete message must be delivered exactly once and re-encode to the bytes that were sent, aborted messages must not be delivered, other messages must be unaffected.",
+    "refpeer's idea of conforming (DESIGN Appendix A); Basic256Sha256 stands for the secured policies here (C07/C08 cover the others)", "3/C12")
+CHECKS["C20"] = ("exploration", "immutability monitor: every delivered request/response/stored value retained with the hash of its re-encoding and re-hashed after later traffic on the same and on parallel connections",
+    "1-8 parallel connections (bare server-kind channel, bare client-kind channel, real client/server pair) exchange 6-25 back-to-back single- and multi-chunk messages with large byte strings and strings in all modes; all delivered objects are kept and must re-encode identically at every later checkpoint.",
+    "changes are observed through re-encoding of the delivered objects", "3/C20")
+
 NOT_YET = {}
 
 
